@@ -78,51 +78,55 @@ structure S1Out where
   msec : List Rat
 deriving Repr
 
+/-- `scan_line_number - 1` as numpy computes it: the KLM field is unsigned 16 bit, so line
+number 0 wraps to 65535; the POD field is signed. -/
+def lineIdx (signed : Bool) (n : Int) : Int := if signed then n - 1 else (n - 1) % 65536
+
 /-- ideal ms relative to the first line: `lineno2msec(n) - lineno2msec(n[0])` -/
-def linenoRel (P : Rat) (nums : List Int) : List Rat :=
-  nums.map (fun n => ((n - nums.headD 0 : Int) : Rat) * P)
+def linenoRel (P : Rat) (signed : Bool) (nums : List Int) : List Rat :=
+  nums.map (fun n => ((lineIdx signed n - lineIdx signed (nums.headD 0) : Int) : Rat) * P)
 
 def jdayFix1 (jday : List Int) : List Rat :=
-  let med := medianD (jday.map (fun j => (j : Rat)))
-  jday.map (fun j => if j < 1 ∨ j > 366 then med else (j : Rat))
+  let med := medianD (jday.map (fun (j : Int) => (j : Rat)))
+  jday.map (fun (j : Int) => if j < 1 ∨ j > 366 then med else (j : Rat))
 
 def jdayFix2 (j1 : List Rat) : List Rat :=
   let mx := maxR j1
   List.zipWith (fun w j => if w < 0 then mx else j) (ediff j1) j1
 
 /-- `msec_lineno_of_day`: the ideal time of day wraps with the day of year -/
-def linenoOfDay (P : Rat) (nums : List Int) (j2 : List Rat) : List Rat :=
-  List.zipWith (fun l j => l - (j - headR j2) * 86400000) (linenoRel P nums) j2
+def linenoOfDay (P : Rat) (signed : Bool) (nums : List Int) (j2 : List Rat) : List Rat :=
+  List.zipWith (fun l j => l - (j - headR j2) * 86400000) (linenoRel P signed nums) j2
 
 /-- first `msec` step: any `msec < 1` replaces the whole series.
 Returns the series and whether it is still the file's unsigned integer array. -/
-def msecFix1 (P : Rat) (nums : List Int) (j2 : List Rat) (msec : List Int) : List Rat × Bool :=
-  let mR := msec.map (fun m => (m : Rat))
+def msecFix1 (P : Rat) (signed : Bool) (nums : List Int) (j2 : List Rat) (msec : List Int) : List Rat × Bool :=
+  let mR := msec.map (fun (m : Int) => (m : Rat))
   match msec.findIdx? (fun m => m < 1) with
   | none => (mR, true)
   | some k =>
-    if k ≠ 0 then ((linenoOfDay P nums j2).map (fun l => headR mR + l), false)
+    if k ≠ 0 then ((linenoOfDay P signed nums j2).map (fun l => headR mR + l), false)
     else
-      let rel := linenoRel P nums
+      let rel := linenoRel P signed nums
       let m0 := medianD (List.zipWith (fun m l => m - l) mR rel)
       (rel.map (fun l => m0 + l), false)
 
 /-- second `msec` step: jumps of more than 1000 ms that do not coincide with a day step -/
-def msecFix2 (P : Rat) (nums : List Int) (j1 j2 : List Rat) (msecI : List Int) (m1 : List Rat)
+def msecFix2 (P : Rat) (signed : Bool) (nums : List Int) (j1 j2 : List Rat) (msecI : List Int) (m1 : List Rat)
     (stillInt : Bool) : List Rat :=
   let wj := ediff j1
-  let wm : List Rat := if stillInt then (ediffU32 msecI).map (fun d => (d : Rat)) else ediff m1
-  let repl := (linenoOfDay P nums j2).map (fun l => headR m1 + l)
+  let wm : List Rat := if stillInt then (ediffU32 msecI).map (fun (d : Int) => (d : Rat)) else ediff m1
+  let repl := (linenoOfDay P signed nums j2).map (fun l => headR m1 + l)
   List.zipWith (fun (c : Rat × Rat) (mr : Rat × Rat) =>
       if (c.1 < -1000 ∨ c.1 > 1000) ∧ c.2 ≠ 1 then mr.2 else mr.1)
     (List.zip wm wj) (List.zip m1 repl)
 
-def stage1 (P : Rat) (nowYear : Int) (r : RawTimes) : S1Out :=
+def stage1 (P : Rat) (signed : Bool) (nowYear : Int) (r : RawTimes) : S1Out :=
   let j1 := jdayFix1 r.jday
   let j2 := jdayFix2 j1
-  let (m1, stillInt) := msecFix1 P r.nums j2 r.msec
-  let m2 := msecFix2 P r.nums j1 j2 r.msec m1 stillInt
-  let rel := linenoRel P r.nums
+  let f1 := msecFix1 P signed r.nums j2 r.msec
+  let m2 := msecFix2 P signed r.nums j1 j2 r.msec f1.1 f1.2
+  let rel := linenoRel P signed r.nums
   match r.year.findIdx? (fun y => y < 1978 ∨ y > nowYear) with
   | none => { year := r.year, jday := j2.map truncR, msec := m2 }
   | some k =>
@@ -131,7 +135,7 @@ def stage1 (P : Rat) (nowYear : Int) (r : RawTimes) : S1Out :=
         jday := j2.map (fun _ => truncR (headR j2)),
         msec := rel.map (fun l => headR m2 + l) }
     else
-      let ym := truncR (medianD (r.year.map (fun y => (y : Rat))))
+      let ym := truncR (medianD (r.year.map (fun (y : Int) => (y : Rat))))
       let jm := truncR (medianD j2)
       let m0 := medianD (List.zipWith (fun m l => m - l) m2 rel)
       { year := r.year.map (fun _ => ym), jday := j2.map (fun _ => jm), msec := rel.map (fun l => m0 + l) }
@@ -157,26 +161,40 @@ structure S2Params where
   minFrac : Rat := 1 / 100
   maxDiffIdeal : Rat := 10000
 
-/-- `tn = lineno2msec(nums)`; `signedNums` says whether a decrease is visible (POD: signed). -/
+/-- `tn = lineno2msec(nums)` -/
+def tnOf (P : Rat) (signed : Bool) (nums : List Int) : List Rat :=
+  nums.map (fun n => ((lineIdx signed n : Int) : Rat) * P)
+
+/-- `offsets = t - tn` -/
+def offsetsOf (t : List Int) (tn : List Rat) : List Rat :=
+  List.zipWith (fun (ti : Int) (x : Rat) => (ti : Rat) - x) t tn
+
+/-- offsets within `max_diff_from_t0_head` of the header time -/
+def nearOf (prm : S2Params) (h : Int) (offsets : List Rat) : List Rat :=
+  offsets.filter (fun o => decide (absR (o - (h : Rat)) ≤ prm.maxDiffHead))
+
+/-- one line of the replacement step -/
+def repairLine (prm : S2Params) (t0 : Rat) (ti : Int) (x : Rat) : Int :=
+  if absR ((ti : Rat) - (x + t0)) > prm.maxDiffIdeal then truncR (x + t0) else ti
+
+/-- `correct_times_thresh`; `signedNums` says whether a decrease of the line numbers is visible
+to `np.diff` (POD: signed 16 bit; KLM: unsigned, the difference wraps and is never negative). -/
 def stage2 (prm : S2Params) (P : Rat) (signedNums : Bool) (nums : List Int) (headMs : Option Int)
     (t : List Int) : S2Result :=
   if signedNums && decreasing nums then .mismatch
   else match headMs with
   | none => .mismatch
   | some h =>
-    let tn := nums.map (fun n => ((n - 1 : Int) : Rat) * P)
-    let offsets := List.zipWith (fun (ti : Int) (x : Rat) => (ti : Rat) - x) t tn
-    let near := offsets.filter (fun o => decide (absR (o - (h : Rat)) ≤ prm.maxDiffHead))
+    let tn := tnOf P signedNums nums
+    let near := nearOf prm h (offsetsOf t tn)
     if (near.length : Rat) / (nums.length : Rat) ≥ prm.minFrac then
-      let t0 := medianD near
-      .times (List.zipWith (fun (ti : Int) (x : Rat) =>
-        if absR ((ti : Rat) - (x + t0)) > prm.maxDiffIdeal then truncR (x + t0) else ti) t tn)
+      .times (List.zipWith (repairLine prm (medianD near)) t tn)
     else .mismatch
 
 /-- `get_times`: stage 2 applied to the stage-1 instants; on refusal the stage-1 instants. -/
 def getTimes (prm : S2Params) (P : Rat) (nowYear : Int) (signedNums : Bool) (headMs : Option Int)
     (r : RawTimes) : List Int :=
-  let t1 := s1Instants (stage1 P nowYear r)
+  let t1 := s1Instants (stage1 P signedNums nowYear r)
   match stage2 prm P signedNums r.nums headMs t1 with
   | .times ts => ts
   | .mismatch => t1
